@@ -359,6 +359,15 @@ def dict_update(it, d, other, kwargs=None):
     if isinstance(other, VDict) and not other.symbolic:
         for k in other.keys:
             dict_store(it, d, k, other.vals[k])
+    elif isinstance(other, (VDict, SAny)) and other is not None:
+        # update by a dict of symbolic content: the result is symbolic, entries of `other` win
+        oarr = other.arr if isinstance(other, VDict) else PV.dvals(other.t)
+        if isinstance(other, SAny) and not it.spec() and not it.ctx.branch(PV.is_PDict(other.t), 'update-dict'):
+            it.raise_py('TypeError', 'dict.update argument is not a mapping')
+        it.mutating(d)
+        d.make_symbolic()
+        k = z3.Const('upd.k', z3.StringSort())
+        d.arr = z3.Lambda([k], z3.If(oarr[k] != pv.PAbsent, oarr[k], d.arr[k]))
     elif other is not None:
         items = concrete_items(it, other)
         if items is None:
@@ -583,6 +592,8 @@ def binop(it, op, a, b, line=None):
             return VList(seq=z3.Concat(a.to_seq(), b.to_seq()))
         if isinstance(a, (tuple, VSeqIter)) and isinstance(b, (tuple, VSeqIter)):
             return VSeqIter(z3.Concat(it.seq_term(a), it.seq_term(b)))
+        if it.spec() and (is_strlike(a) or is_strlike(b)) and (isinstance(a, SAny) or isinstance(b, SAny)):
+            return SStr(z3.Concat(as_term_str(a), as_term_str(b)))
         if isinstance(a, SAny) or isinstance(b, SAny):
             return add_any(it, a, b, line)
         if (is_strlike(a) and is_intlike(b)) or (is_intlike(a) and is_strlike(b)) or a is None or b is None:
@@ -867,6 +878,7 @@ def str_method(it, s, name, args, kwargs, line=None):
     if name == 'replace':
         a, b = as_term_str(args[0]), as_term_str(args[1])
         it.ctx.note('str.replace: trusted as the uninterpreted py_replace(s, old, new)')
+        replace_facts(it, st, args[0], args[1])
         return SStr(py_replace(st, a, b))
     if name == 'startswith':
         return mkbool(z3.PrefixOf(as_term_str(args[0]), st))
@@ -1507,8 +1519,13 @@ def b_sorted(it, args, kwargs):
     if isinstance(v, VKeys):
         raise Unsupported('sorted() over the keys of a symbolic mapping')
     seq = it.seq_term(v)
-    it.ctx.note('sorted() over a sequence of symbolic length: uninterpreted py_sorted')
-    return VList(seq=py_sorted(seq))
+    it.ctx.note('sorted() over a sequence of symbolic length: a permutation of its argument (trusted; the order '
+                'itself is not modelled)')
+    r = py_sorted(seq)
+    x = it.ctx.fresh(PV, 'sx')
+    it.ctx.assume(z3.Length(r) == z3.Length(seq))
+    it.ctx.assume(z3.ForAll([x], z3.Contains(r, z3.Unit(x)) == z3.Contains(seq, z3.Unit(x))))
+    return VList(seq=r)
 
 
 def symbolic_sort(it, keyed):
@@ -1895,13 +1912,45 @@ def sp_py_int_base(it, args, kwargs):
     return SInt(py_int_base(as_term_str(args[0]), as_term_int(args[1])))
 
 
+def _string_literals(t, out, seen, budget=200):
+    if t.get_id() in seen or len(out) > budget:
+        return
+    seen.add(t.get_id())
+    if z3.is_string_value(t):
+        out.add(t.as_string())
+        return
+    if z3.is_app(t):
+        for c in t.children():
+            _string_literals(c, out, seen, budget)
+
+
+def replace_facts(it, term, a, b):
+    """py_replace is uninterpreted; for the string literals occurring in its argument (the leaves of an
+    if-then-else over table entries) the value CPython computes is added as a fact."""
+    if not (isinstance(a, str) and isinstance(b, str)):
+        return
+    lits = set()
+    _string_literals(term, lits, set())
+    for lit in sorted(lits):
+        it.ctx.assume(py_replace(z3.StringVal(lit), z3.StringVal(a), z3.StringVal(b)) == z3.StringVal(lit.replace(a, b)))
+
+
 def sp_replace(it, args, kwargs):
-    return SStr(py_replace(as_term_str(args[0]), as_term_str(args[1]), as_term_str(args[2])))
+    if all(isinstance(x, str) for x in args):
+        return args[0].replace(args[1], args[2])
+    t = as_term_str(args[0])
+    replace_facts(it, t, args[1], args[2])
+    return SStr(py_replace(t, as_term_str(args[1]), as_term_str(args[2])))
 
 
 def sp_seq(it, args, kwargs):
     """seq(x): the value as an immutable sequence view (tuple or list)."""
-    return VSeqIter(it.seq_term(args[0]))
+    v = args[0]
+    if isinstance(v, VSeqIter):
+        return v
+    if isinstance(v, VList) and v.symbolic:
+        return VSeqIter(v.seq, elem=v.elem)
+    return VSeqIter(it.seq_term(v))
 
 
 def sp_concat(it, args, kwargs):
